@@ -88,6 +88,17 @@ var borrowable = []string{"C10", "C11", "C12", "C13", "C14", "C15", "C17", "C19"
 // count capped at 50 and per-block hook; its replicas, fault policy and oracle are NOT taken). The caller adds
 // replicas, fault policy and its own hooks.
 func drawWorkload(rng *rand.Rand, tier string, seed uint64, tenths int, nBlocks int) *Setup {
+	su := drawWorkload0(rng, tier, seed, tenths, nBlocks)
+	// inputs that make a handler panic: since the per-transaction panic recovery they are answered with an
+	// error code like any failed transaction, so half of the runs of every profile carry them
+	if rng.Intn(2) == 0 {
+		su.Sess.M["lethal"] = true
+		su.Sess.M["olvm-basefee"] = true
+	}
+	return su
+}
+
+func drawWorkload0(rng *rand.Rand, tier string, seed uint64, tenths int, nBlocks int) *Setup {
 	if rng.Intn(10) < tenths {
 		from := borrowable[rng.Intn(len(borrowable))]
 		if p, ok := Registry[from].(*ClusterProp); ok {
